@@ -22,8 +22,17 @@ func vpC09ReqView(rh *RequestHeader) string {
 }
 
 func vpC09RespView(rh *ResponseHeader) string {
-	return fmt.Sprintf("%d %q %s ct=%q server=%q cl=%d close=%v hdr=%q", rh.StatusCode(), rh.StatusMessage(), rh.Protocol(), rh.ContentType(), rh.Server(), rh.ContentLength(),
-		rh.ConnectionClose(), rh.String())
+	// the fields the parsed header holds (VisitAll), not the serialised form: that one adds the current
+	// date as a default, which changes while the test runs
+	var fields []string
+	rh.VisitAll(func(k, v []byte) {
+		if string(k) == HeaderDate && len(rh.Peek(HeaderDate)) == 0 {
+			return
+		}
+		fields = append(fields, string(k)+": "+string(v))
+	})
+	return fmt.Sprintf("%d %q %s ct=%q server=%q cl=%d close=%v date=%q fields=%q", rh.StatusCode(), rh.StatusMessage(), rh.Protocol(), rh.ContentType(), rh.Server(), rh.ContentLength(),
+		rh.ConnectionClose(), rh.Peek(HeaderDate), fields)
 }
 
 func TestVP_C09_FieldsSurviveLaterReads(t *testing.T) {
